@@ -1091,10 +1091,14 @@ pub fn wide(out: &mut String, rng: &mut Rng, profile: &str, cases: usize) {
                     }
                     let at = 1 + rng.below(base - 1);
                     let typed = 60 + rng.below(31);
+                    let mut next2 = 0; // replica 2 receives a causal prefix (ascending ids) while replica 1 types
                     for j in 0..typed {
                         writeln!(out, "G 1 o{} ins {} {}", base + j, at, (j % 40) + 5).unwrap();
                         if j % 16 == 15 {
-                            writeln!(out, "D 2 o{}", rng.below(base)).unwrap();
+                            for _ in 0..(1 + rng.below(6)) {
+                                writeln!(out, "D 2 o{}", next2).unwrap();
+                                next2 += 1;
+                            }
                         }
                     }
                     for r in [0usize, 2] {
